@@ -64,7 +64,28 @@ func certOps(c *x509.Certificate, others []*x509.Certificate) string {
 		g.AddCert(o)
 	}
 	g.AddCert(c)
+	keyOps(c)
 	return ""
+}
+
+var probeAlgs = []x509.SignatureAlgorithm{x509.SHA256WithRSA, x509.SHA256WithRSAPSS, x509.ECDSAWithSHA256, x509.ECDSAWithSHA384,
+	x509.DSAWithSHA256, x509.Ed25519Sig, x509.SHA1WithRSA}
+
+// a well-formed ECDSA / DSA signature value (two positive INTEGERs) and a raw 64-byte one (Ed25519-sized)
+var probeSigs = [][]byte{
+	c01.Seq(c01.Int(0x1234567), c01.Int(0x7654321)),
+	bytes.Repeat([]byte{0x5a}, 64),
+}
+
+// keyOps: the signature dispatch with the certificate's own public key under every kind of signature algorithm
+// (CheckSignature / CheckSignatureFromKey), whatever parsePublicKey made of the SubjectPublicKeyInfo.
+func keyOps(c *x509.Certificate) {
+	for _, a := range probeAlgs {
+		for _, sig := range probeSigs {
+			x509.CheckSignatureFromKey(c.PublicKey, a, c.RawTBSCertificate, sig)
+		}
+	}
+	c.CheckSignature(c.SignatureAlgorithm, c.RawTBSCertificate, c.Signature)
 }
 
 var parents = struct {
@@ -106,7 +127,12 @@ func exec(line string) zv.Out {
 			}
 			res = "accepted"
 			var others []*x509.Certificate
-			for _, d := range append(ders[1:], parentDER()...) {
+			cands := append(ders[1:], parentDER()...)
+			if strings.HasPrefix(f[len(f)-1], "k=spki") {
+				// candidate children signed with every signature algorithm under the subject name of the SPKI certificates
+				cands = append(cands, c01.SPKIChildren()...)
+			}
+			for _, d := range cands {
 				if o, err := x509.ParseCertificate(d); err == nil {
 					others = append(others, o)
 				}
@@ -415,6 +441,78 @@ func gen(g *zv.Gen) {
 		}
 		add(p, fmt.Sprintf("c02 cert %s %s k=%s", m, strings.Join(hs, ","), kind))
 	}
+	// ---- cert: structure-aware edits of the SubjectPublicKeyInfo, every key type (T3) ----
+	// (a) hand-built CA certificates "zv-spki" (not self-issued, so the parser only runs parsePublicKey on the key) with
+	//     every variant of c01.SPKIVariants for RSA, DSA, P-224/256/384/521, Ed25519, X25519, both modes; Exec adds
+	//     children signed with every signature algorithm, so an accepted key is used as a candidate parent's key.
+	fams := c01.KeyFamilies()
+	serial := 1000
+	spkiLine := func(p bool, der []byte, variant, fam string, extra ...[]byte) {
+		hs := []string{hex.EncodeToString(der)}
+		for _, e := range extra {
+			hs = append(hs, hex.EncodeToString(e))
+		}
+		m := "s"
+		if p {
+			m = "p"
+		}
+		add(p, fmt.Sprintf("c02 cert %s %s v=%s k=spki-%s", m, strings.Join(hs, ","), variant, fam))
+	}
+	for i := range fams {
+		for _, v := range c01.SPKIVariants(fams[i].SPKI) {
+			serial++
+			der := c01.SPKICert(&fams[i], v.SPKI, false, serial)
+			spkiLine(false, der, v.Kind, fams[i].Name)
+			spkiLine(true, der, v.Kind, fams[i].Name)
+		}
+	}
+	for i := 0; i < g.N(1500, 30000); i++ {
+		f := &fams[r.Intn(len(fams))]
+		v := c01.RandomSPKIEdit(r, f.SPKI)
+		serial++
+		spkiLine(r.Bool(), c01.SPKICert(f, v.SPKI, false, serial), v.Kind, f.Name)
+	}
+	// (b) the same edits applied to the SubjectPublicKeyInfo of real certificates of the tree that are not self-issued
+	//     (two per key algorithm + parameters for the full variant list, any for random edits)
+	perAlg := map[string]int{}
+	var realIssued [][]byte
+	for _, der := range certs {
+		if len(der) > 3000 || !c01.CertAccepted(der) {
+			continue
+		}
+		_, old, self, ok := c01.ReplaceSPKI(der, func(o []byte) []byte { return o })
+		if !ok || self {
+			continue
+		}
+		realIssued = append(realIssued, der)
+		vs := c01.SPKIVariants(old)
+		if len(vs) == 0 {
+			continue
+		}
+		famName := strings.SplitN(vs[0].Kind, ":", 2)[0]
+		if perAlg[famName] >= 2 {
+			continue
+		}
+		perAlg[famName]++
+		for _, v := range vs {
+			v := v
+			if m, _, _, ok := c01.ReplaceSPKI(der, func([]byte) []byte { return v.SPKI }); ok {
+				spkiLine(r.Bool(), m, v.Kind, "real-"+famName)
+			}
+		}
+	}
+	for i := 0; i < g.N(1500, 30000) && len(realIssued) > 0; i++ {
+		der := realIssued[r.Intn(len(realIssued))]
+		kind := ""
+		m, _, _, ok := c01.ReplaceSPKI(der, func(o []byte) []byte {
+			v := c01.RandomSPKIEdit(r, o)
+			kind = v.Kind
+			return v.SPKI
+		})
+		if ok {
+			spkiLine(r.Bool(), m, kind, "real-random")
+		}
+	}
 	for _, l := range strict {
 		g.Emit(l)
 	}
@@ -425,5 +523,5 @@ func gen(g *zv.Gen) {
 
 func init() {
 	zv.Register(&zv.Prop{ID: "C02", Topic: "c02", Gen: gen, Exec: exec, Timeout: c01.FrameworkTimeout,
-		Rule: "certificates = hand-built certificates carrying a random subset of the 16 extension OIDs the parser's switch knows with valid / structurally mutated / byte-mutated / random payloads, structure- and byte-mutated real certificates from the tree, Ed25519 keys of odd lengths, each with a batch of candidate parents, both parsing modes; only accepted certificates count as non-trivial; every certificate-policies shape with <= 3 user notices (text / reference / both / neither / empty text / empty text + reference) x CPS, and random multi-policy shapes; random name lists with duplicates; T3 = recover + JSON twice byte-identical (+ re-parse) + independent expected policies view"})
+		Rule: "certificates = hand-built certificates carrying a random subset of the 16 extension OIDs the parser's switch knows with valid / structurally mutated / byte-mutated / random payloads, structure- and byte-mutated real certificates from the tree, Ed25519 keys of odd lengths, each with a batch of candidate parents, both parsing modes; structure-aware edits of the SubjectPublicKeyInfo for every key type (c01.SPKIVariants: EC point format octet 00..ff, compressed / hybrid forms with right and wrong parity, x without a point, point lengths, coordinates off the curve / >= p, curve identifier swapped / unknown / explicit, for P-224/256/384/521; RSA modulus and exponent zero / negative / unpadded / huge / even, RSAPublicKey with missing / extra / swapped members; Ed25519 / X25519 key lengths and special points; DSA p,q,g,y zero / one / negative / missing; algorithm parameters absent / NULL / OID / doubled, unknown algorithm, BIT STRING padding) plus random edits of the first / last key octets and the headers, carried by hand-built not-self-issued CA certificates and by the not-self-issued real certificates of the tree, each run against children signed with every signature algorithm (RSA PKCS#1 / PSS, DSA, ECDSA on the four curves, Ed25519) and through CheckSignatureFromKey with the certificate's own key under seven algorithms; only accepted certificates count as non-trivial; every certificate-policies shape with <= 3 user notices (text / reference / both / neither / empty text / empty text + reference) x CPS, and random multi-policy shapes; random name lists with duplicates; T3 = recover + JSON twice byte-identical (+ re-parse) + independent expected policies view"})
 }
